@@ -129,3 +129,53 @@ func HarnessC07HistoryIndependence() {
 		verifrt.Assert(!machine.running, "not-running-after-runcode")
 	}
 }
+
+// HarnessC07FailedImportHistory: an import that failed in an earlier Call does
+// not leave a half-initialised module behind for a later Call.
+func HarnessC07FailedImportHistory() {
+	ctx := context.Background()
+	a := verifrt.Int64()
+	cfg := object.NewMap(map[string]object.Object{"fail": object.True})
+	globals := map[string]any{"a": object.NewInt(a), "cfg": cfg}
+	for name, bi := range builtins.Builtins() {
+		globals[name] = bi
+	}
+	names := make([]string, 0, len(globals))
+	for n := range globals {
+		names = append(names, n)
+	}
+	imp := &memImporter{sources: map[string]string{
+		"m": "y := a\nif cfg[\"fail\"] { error(\"boom\") }\nz := a + 1",
+	}, names: names, calls: map[string]int{}}
+	code := c07Compile("f := func() { import m\n return m.z - m.y }\ng := func() { return f() + 1 }\n0", names)
+	verifrt.Assert(code != nil, "setup-compiles")
+	if code == nil {
+		return
+	}
+	machine := New(code, WithGlobals(globals), WithImporter(imp))
+	verifrt.Assert(machine.Run(ctx) == nil, "setup-runs")
+	which := "f"
+	if verifrt.Bool() {
+		which = "g" // failure one call level deeper
+	}
+	fObj, err := machine.Get(which)
+	verifrt.Assert(err == nil, "function-available")
+	if err != nil {
+		return
+	}
+	fn := fObj.(*object.Function)
+	_, err1 := machine.Call(ctx, fn, nil)
+	verifrt.Assert(err1 != nil, "first-call-fails-in-the-import")
+	cfg.Set("fail", object.False)
+	res, err2 := machine.Call(ctx, fn, nil)
+	verifrt.Reach("second-call")
+	verifrt.Assert(err2 == nil, "call-after-failed-import-succeeds")
+	if err2 == nil {
+		want := int64(1)
+		if which == "g" {
+			want = 2
+		}
+		iv, ok := asInt(res)
+		verifrt.Assert(ok && iv == want, "call-after-failed-import-sees-a-fully-initialised-module")
+	}
+}
